@@ -300,6 +300,17 @@ pub fn race_case(rng: &mut Rng, id: String) -> Case {
         case.pair("noop".into(), "ok".into());
         return case;
     }
+    // every helper thread must finish: a traffic thread that blocks forever means the router stopped draining a route
+    let t1 = Instant::now();
+    while hs.iter().any(|h| !h.is_finished()) {
+        if t1.elapsed() > Duration::from_secs(10) {
+            case.fail("a sender blocked for more than 10 s: the router stopped draining a route whose channel still has traffic".into());
+            case.tags.push("deadlock".into());
+            case.pair("noop".into(), "ok".into());
+            return case;
+        }
+        std::thread::sleep(Duration::from_millis(1));
+    }
     for h in hs {
         let _ = h.join();
     }
